@@ -31,11 +31,12 @@ RULE = (
     "by (part, id kind, root encoding, shape signature, mutation)."
 )
 ASSUMPTIONS = ["explicit key mappings (the inferred map is C17's subject)", "pandas/geff/zarr trusted as transport",
-               "a source column is never spelled like a different standard key (e.g. positions are not stored in a column called 'id')",
+               "a *position* column is never spelled like another key of the map (multi-column sources keep their own names next to the standard keys); single-valued columns may be (e.g. a custom column called 'time' while time is read from 't')",
                "a list-valued custom cell may be imported as the source string or as the parsed list"]
 REQUIRED_CLASSES = {t: ["c12:ids=str", "c12:ids=noncontig", "c12:ids=float", "c12:renamed", "c12:3D",
                         "c12:malformed:duplicate_id", "c12:malformed:unknown_parent", "c12:malformed:self_link",
-                        "c12:malformed:missing_column", "c12:malformed:unmapped_key", "part:geff"]
+                        "c12:malformed:missing_column", "c12:malformed:unmapped_key", "part:geff",
+                        "c12:crossed_single_value_names"]
                     for t in ("quick", "thorough")}
 
 # Aliases per key: a source column is never spelled like a *different* standard key (a
@@ -96,7 +97,17 @@ def sources(draw, geff=False):
         cols = {k: draw(st.sampled_from(ALIASES[k])) for k in keys}
     pos_order = draw(st.permutations(list(range(nsp))))
     customs = [k for k in ("ci", "cf", "cs", "cl") if draw(st.booleans())]
-    return {"nodes": nodes, "nsp": nsp, "idkind": idkind, "cols": cols, "renamed": renamed,
+    crossed = False
+    if renamed and draw(st.integers(0, 3)) == 0:
+        # a single-valued custom column spelled like a standard key, while that key is read
+        # from another column ({"time": "t", "uid": "time"}); position columns never cross
+        k = draw(st.sampled_from(["time", "id", "parent_id"]))
+        c = draw(st.sampled_from(["uid"] + [x for x in customs if x != "cl"]))
+        if cols[k] == k:
+            cols[k] = ALIASES[k][1]
+        cols[c] = k
+        crossed = len(set(cols.values())) == len(cols)
+    return {"nodes": nodes, "nsp": nsp, "idkind": idkind, "cols": cols, "renamed": renamed, "crossed": crossed,
             "pos_order": list(pos_order), "customs": customs,
             "root": draw(st.sampled_from(["minus1", "nan", "empty"])),
             "shuffle": draw(st.integers(0, 8)),
@@ -184,6 +195,15 @@ def _mutate(inp, df, nm):
     return None
 
 
+def _as_int(x):
+    try:
+        if x is None or (isinstance(x, float) and x != x):
+            return None
+        return int(x)
+    except (TypeError, ValueError):
+        return None
+
+
 def probe_df(inp) -> ProbeResult:
     import pandas as pd
 
@@ -227,11 +247,11 @@ def probe_df(inp) -> ProbeResult:
     by_uid = {m["uid"]: m for m in nodes}
     imp_by_uid = {}
     for n, d in g.nodes(data=True):
-        u = d.get("uid")
-        if u is None or int(u) - 1000 in imp_by_uid:
-            res.fail("uid", f"imported node {n} has uid {u!r}")
+        u = _as_int(d.get("uid"))
+        if u is None or u - 1000 in imp_by_uid:
+            res.fail("custom:uid", f"imported node {n} has uid {d.get('uid')!r}")
             return res
-        imp_by_uid[int(u) - 1000] = n
+        imp_by_uid[u - 1000] = n
     if set(imp_by_uid) != set(by_uid):
         res.fail("node_count", f"imported uids {sorted(imp_by_uid)} != source {sorted(by_uid)}")
         return res
@@ -242,7 +262,7 @@ def probe_df(inp) -> ProbeResult:
             return res
     else:
         for u, m in by_uid.items():
-            if int(imp_by_uid[u]) != m["id"]:
+            if _as_int(imp_by_uid[u]) != m["id"]:
                 res.fail("node_ids", f"source id {m['id']} imported as {imp_by_uid[u]}")
                 return res
     exp_edges = {(imp_by_uid[m["parent"]], imp_by_uid[m["uid"]]) for m in nodes if m["parent"] is not None}
@@ -252,7 +272,7 @@ def probe_df(inp) -> ProbeResult:
     order = inp["pos_order"]
     for u, m in by_uid.items():
         d = g.nodes[imp_by_uid[u]]
-        if int(d.get("time", -1)) != m["t"]:
+        if _as_int(d.get("time", -1)) != m["t"]:
             res.fail("time", f"node {m['id']}: time {d.get('time')} != {m['t']}")
         exp_pos = [m["pos"][i] for i in order]
         if not refs.close(list(d.get("pos", [])), exp_pos, rtol=0, atol=0):
@@ -275,6 +295,8 @@ def _classify(res, inp, part):
     res.tags.append(f"c12:ids={inp['idkind']}")
     if inp["renamed"]:
         res.tags.append("c12:renamed")
+    if inp.get("crossed"):
+        res.tags.append("c12:crossed_single_value_names")
     if inp["nsp"] == 3:
         res.tags.append("c12:3D")
     if has_edge and (inp["renamed"] or inp["idkind"] != "contig" or inp["customs"] or inp["nsp"] == 3):
